@@ -5,7 +5,10 @@ Writes seeded/SCOREBOARD.md. usage: seeded_regress.py [id-prefix ...]"""
 import json, os, subprocess, sys, time
 sys.path.insert(0, "/verif")
 from checks_table import PROPS
-BIN = "/tmp/hm/target/release/lsmverif"
+SLOT = os.environ.get("MUT_SLOT", "")
+REPO_MUT = "/tmp/repo_mut" + SLOT
+HM = "/tmp/hm" + SLOT
+BIN = HM + "/target/release/lsmverif"
 ENV = dict(os.environ, LSMVERIF_BIN=BIN, LSMDRV="/verif/lean/.lake/build/bin/lsmdrv", CARGO_NET_OFFLINE="true")
 
 def sh(cmd, timeout=3600, cwd=None):
@@ -17,15 +20,15 @@ def sh(cmd, timeout=3600, cwd=None):
 
 def prepare(patch):
     head = subprocess.check_output(["git", "-C", "/repo", "rev-parse", "HEAD"], text=True).strip()
-    if not os.path.isdir("/tmp/repo_mut"):
-        sh(["git", "-C", "/repo", "worktree", "add", "--detach", "/tmp/repo_mut", "HEAD"])
-    sh(["git", "-C", "/tmp/repo_mut", "reset", "-q", "--hard"]); sh(["git", "-C", "/tmp/repo_mut", "checkout", "-q", "--detach", head]); sh(["git", "-C", "/tmp/repo_mut", "reset", "-q", "--hard", head])
-    sh(["bash", "-c", "mkdir -p /tmp/hm && rsync -a --exclude target /verif/harness/ /tmp/hm/ && sed -i 's|path = \"/repo\"|path = \"/tmp/repo_mut\"|' /tmp/hm/Cargo.toml"])
+    if not os.path.isdir(REPO_MUT):
+        sh(["git", "-C", "/repo", "worktree", "add", "--detach", REPO_MUT, "HEAD"])
+    sh(["git", "-C", REPO_MUT, "reset", "-q", "--hard"]); sh(["git", "-C", REPO_MUT, "checkout", "-q", "--detach", head]); sh(["git", "-C", REPO_MUT, "reset", "-q", "--hard", head])
+    sh(["bash", "-c", "mkdir -p %s && rsync -a --exclude target /verif/harness/ %s/ && sed -i 's|path = \"/repo\"|path = \"%s\"|' %s/Cargo.toml" % (HM, HM, REPO_MUT, HM)])
     if patch:
-        rc, out = sh(["git", "-C", "/tmp/repo_mut", "apply", patch])
+        rc, out = sh(["git", "-C", REPO_MUT, "apply", patch])
         if rc != 0:
             return "patch does not apply: " + out[-200:]
-    rc, out = sh(["cargo", "build", "--release", "--offline"], cwd="/tmp/hm")
+    rc, out = sh(["cargo", "build", "--release", "--offline"], cwd=HM)
     if rc != 0:
         return "harness does not build: " + out[-300:]
     return None
@@ -50,10 +53,32 @@ def corpus(pid):
         args = ["ia", "manifest-replay", os.path.join(d, f)] if f.endswith(".oplog") else ["ib", "all", "--replay", os.path.join(d, f)]
         yield {"args": args, "cases": {"quick": 1}}
 
+def merge():
+    rows = []
+    for f in sorted(os.listdir("/verif/work")):
+        if f.startswith("regress_shard_") and f.endswith(".jsonl"):
+            rows += [json.loads(l) for l in open("/verif/work/" + f)]
+    rows.sort(key=lambda r: r[0])
+    with open("/verif/seeded/SCOREBOARD.md", "w") as f:
+        f.write("# Seeded defects vs the quick tier of their property's check\n\nProduced by `seeded_regress.py` (patch applied to a scratch worktree, harness rebuilt against it, the property's quick instruments run with seed 1 in the order of checks_table.py, first detecting instrument shown).\n\n| id | verdict | first detecting instrument: evidence |\n|---|---|---|\n")
+        for sid, v, by, _ in rows:
+            f.write("| %s | %s | %s |\n" % (sid, v, by.replace("|", "\\|")[:300]))
+        f.write("\n%d of %d detected.\n" % (sum(1 for r in rows if r[1] == "detected"), len(rows)))
+    print("%d of %d detected" % (sum(1 for r in rows if r[1] == "detected"), len(rows)))
+
 def main():
+    if sys.argv[1:2] == ["--merge"]:
+        return merge()
+    shard = None
+    if sys.argv[1:2] == ["--shard"]:
+        shard = (int(sys.argv[2]), int(sys.argv[3])); del sys.argv[1:4]
     sel = sys.argv[1:]
     ids = sorted(d for d in os.listdir("/verif/seeded") if os.path.isfile("/verif/seeded/%s/patch.diff" % d) and (not sel or any(d.startswith(s) for s in sel)))
     rows = []
+    if shard:
+        ids = [x for i, x in enumerate(ids) if i % shard[1] == shard[0]]
+        os.makedirs("/verif/work", exist_ok=True)
+        outf = open("/verif/work/regress_shard_%d.jsonl" % shard[0], "w")
     for sid in ids:
         pid = sid.split("-")[0]
         t0 = time.time()
@@ -69,8 +94,10 @@ def main():
                     break
         rows.append((sid, verdict, by, time.time() - t0))
         print("%s %s %s (%.0fs)" % (sid, verdict, by[:200], time.time() - t0), flush=True)
-    sh(["git", "-C", "/tmp/repo_mut", "reset", "-q", "--hard"])
-    if not sel:
+        if shard:
+            outf.write(json.dumps(rows[-1]) + "\n"); outf.flush()
+    sh(["git", "-C", REPO_MUT, "reset", "-q", "--hard"])
+    if not sel and not shard:
         with open("/verif/seeded/SCOREBOARD.md", "w") as f:
             f.write("# Seeded defects vs the quick tier of their property's check\n\nProduced by `seeded_regress.py` (patch applied to a scratch worktree, harness rebuilt against it, the property's quick instruments run with seed 1, first detecting instrument shown).\n\n| id | verdict | first detecting instrument: evidence |\n|---|---|---|\n")
             for sid, v, by, _ in rows:
